@@ -46,6 +46,7 @@ def run(ctx):
                 "types x frame types x call types x colour codes 0..15 x both timeslots x ids {0,1,2^24-1,random, zero / all-ones octets in each position} x random reserved bytes, "
                 "payload = a burst valid for the indicated kind (data bursts by data type, voice bursts, sync / wake-up). distinct = frames.")
     ctx.assumptions += [
+        "a wake-up call type (2, 12) indicates a wake-up burst in every slot but the sync slot; such frames are generated with the empty payload of the captured wake-up frames (a data payload there is not 'a payload that parses as the indicated kind')",
         "well-formed frame: 0x5A5A, colour nibble repeated four times, low octet of both id fields zero, payload pad octet zero, timeslot 0x1111/0x2222; frames with unknown packet / frame types are folded with a warning by design and are not generated",
         "colour code and ids 'as the frame encodes them' are compared on the decoded IPSC object (a burst only knows the colour code of its own slot type / EMB and guesses a zero destination from its payload); the two decoders are also compared on the burst's own ids",
     ]
@@ -84,7 +85,10 @@ def run(ctx):
         ident = lambda: rng.choice([0, 1, 2 ** 24 - 1, rng.randrange(1 << 24), rng.randrange(1 << 24),
                                     rng.choice([0x000100, 0x010000, 0x800000, 0x00FF00, 0xFF0000, 0x0000FF, 0x123400, 0x120034, 0x001234, 0xFFFF00]),
                                     rng.randrange(1 << 16) << 8, rng.randrange(1 << 8) << 16])
-        call = rng.choice([0, 1]) if slot != 0xDDDD else rng.choice([0, 1, 2, 12])
+        # the call types cross every slot type: a wake-up call type (2, 12) also turns up in sync, data and voice slots
+        call = rng.choice([0, 1, 0, 1, 2, 12]) if slot != 0xDDDD else rng.choice([0, 1, 2, 12])
+        if call in (2, 12) and slot not in (0xDDDD, 0xEEEE):
+            burst = bytes(33)            # the indicated kind is then a wake-up burst, whose payload is empty as in the captured ones
         f = (gen.rbytes(rng, 2) + b"ZZ" + bytes([rng.choice([0, 1, 255, rng.randrange(256)])]) + gen.rbytes(rng, 3)
              + bytes([rng.choice([65, 66, 67, 1])]) + gen.rbytes(rng, 7)
              + (b"\x11\x11" if rng.random() < 0.5 else b"\x22\x22") + slot.to_bytes(2, "little") + bytes([cc | cc << 4] * 2)
